@@ -38,3 +38,20 @@ func TestTJKeepsLineMatrix(t *testing.T) {
 		t.Fatalf("EF starts at x=%v; Td is relative to the line matrix, which TJ does not move: want 100", last.X)
 	}
 }
+
+// TestFontSizeUnderRotatedTextMatrix: a rotation moves the scale of the text matrix off the diagonal (fixed).
+func TestFontSizeUnderRotatedTextMatrix(t *testing.T) {
+	for _, tm := range []string{"0 1 -1 0 100 100", "0.7071 0.7071 -0.7071 0.7071 100 100", "1 0 0 1 100 100", "0 -2 2 0 100 100"} {
+		fr, err := text.NewExtractor().ExtractFromBytes([]byte("BT /F1 12 Tf " + tm + " Tm (ab) Tj ET"))
+		if err != nil || len(fr) == 0 {
+			t.Fatal(err, len(fr))
+		}
+		want := 12.0
+		if tm == "0 -2 2 0 100 100" {
+			want = 24
+		}
+		if math.Abs(fr[0].FontSize-want) > 0.01 {
+			t.Errorf("Tm [%s]: font size %v, want %v", tm, fr[0].FontSize, want)
+		}
+	}
+}
